@@ -45,5 +45,16 @@ theorem equilibrium_LW (ns : ℕ) (sm : ℕ → ℝ) (fb W0 lf CL St v rho : ℝ
       = (equilibrium ns sm fb W0 lf CL St v rho).1 := by
   simp only [F.equilibrium_LW, F.equilibrium_totWeight, equilibrium, dec_eq]; norm_num
 
+/-- `TotalLiftDrag`: the four outputs are the code's four lines applied to the area-weighted sums -/
+theorem totalLiftDrag_eq (ns : ℕ) (CL CD S : ℕ → ℝ) (rho v St : ℝ) :
+    totalLiftDrag ns CL CD S rho v St
+      = (F.tld_L (sumTo ns (fun s => CL s * S s)) rho v, F.tld_D (sumTo ns (fun s => CD s * S s)) rho v,
+         F.tld_CL (sumTo ns (fun s => CL s * S s)) St, F.tld_CD (sumTo ns (fun s => CD s * S s)) St) := by
+  simp only [totalLiftDrag, F.tld_L, F.tld_D, F.tld_CL, F.tld_CD, dec_eq]
+  norm_num
+
+theorem deg2rad_eq (a : ℝ) : F.cv_alpha a = deg2rad a := by
+  simp only [F.cv_alpha, deg2rad, dec_eq]; norm_num
+
 end Formulas
 end OAS
